@@ -3,6 +3,7 @@ from __future__ import annotations
 
 import copy
 import json
+import re
 import random
 
 from .. import common, gen, rows as rowsmod, sge
@@ -28,11 +29,18 @@ def spaced(rng, items, allow_before_comma=False) -> str:
     return out + ' ' * rng.choice([0, 0, 1])
 
 
+def alias_spelling(x: str) -> str:
+    """The other documented spelling of a parametric deletion (`<SPAN>del[<OFFSET>]`, offset zero when absent): 2del0 <-> 2del."""
+    m = re.fullmatch(r'(\d+)del(0?)', x)
+    return x if not m else (m.group(1) + 'del' + ('' if m.group(2) else '0'))
+
+
 def shuffled_dups(rng, items):
     items = list(items)
     for _ in range(rng.choice([0, 1, 1, 2])):
         if items:
-            items.append(rng.choice(items))
+            x = rng.choice(items)
+            items.append(alias_spelling(x) if rng.random() < 0.4 else x)     # a duplicate may use the equivalent spelling
     rng.shuffle(items)
     return items
 
@@ -260,9 +268,47 @@ def parse_list_tie(ctx: Ctx):
                       broken='correspondence S-api loaders.utils.parse_list')
 
 
+def parse_mutators_tie(ctx: Ctx):
+    """The model of base_targeton_config.parse_mutators (codes parsed, duplicates removed before and after parsing) against the real function."""
+    from ..runner import coq_eval, coq_list, coq_str
+    common.use_repo()
+    from valiant.loaders.base_targeton_config import parse_mutators
+    from valiant.mutator_type import MutatorType
+    rng = ctx.rng
+    items = ['snv', 'snvre', '1del', '1del0', '2del', '2del0', '2del1', '3del', '3del0', '3del2', '02del0', '2del00', 'ala', 'stop', 'aa', 'inframe',
+             'del', '0del', 'snvx', 'Snv', '2 del0', '']
+
+    def coq_kind(m) -> str:
+        if m.type == MutatorType.DEL:
+            return f'(MDelK {m.pt.span} {m.pt.offset})'
+        return {'snv': 'MSnv', 'snvre': 'MSnvRe', 'inframe': 'MInframe', 'ala': 'MAla', 'stop': 'MStop', 'aa': 'MAa'}[m.type.value]
+
+    exprs, cases = [], []
+    for _ in range(ctx.n(300, 3000)):
+        parts = [' ' * rng.randint(0, 2) + rng.choice(items) + ' ' * rng.randint(0, 1) for _i in range(rng.randint(0, 5))]
+        sv = ','.join(parts)
+        try:
+            got = 'Ok ' + coq_list(coq_kind(m) for m in parse_mutators(sv))
+        except Exception as ex:
+            got = 'Err InvalidMutator' if type(ex).__name__ == 'InvalidMutator' else 'Err OtherErr'
+        ctx.evaluations += 1
+        exprs.append(f'res_eqb (list_eqb mkind_eqb) (parse_mutators {coq_str(sv)}) ({got})')
+        cases.append(sv)
+    ctx.count('parse_mutators_cases', len(cases))
+    bad, err = coq_eval(['Model.Base', 'Model.Pattern', 'Model.Mutators', 'Model.ParseList', 'Model.Refusal', 'Model.ParseMutators'], exprs)
+    ctx.corr['cases'] += len(exprs)
+    if err:
+        ctx.violation('correspondence', 'model evaluation failed: ' + err[:300], broken='coqc cases (C12 parse_mutators)', no_input=True)
+    for i in bad:
+        ctx.corr['disagreements'] += 1
+        ctx.violation('correspondence', f'parse_mutators({cases[i]!r}): model differs from the implementation', {'string': cases[i]},
+                      broken='correspondence S-api loaders.base_targeton_config.parse_mutators')
+
+
 def run(ctx: Ctx):
     explore(ctx)
     parse_list_tie(ctx)
+    parse_mutators_tie(ctx)
     return {'rule': 'Each random SGE/cDNA design (ties on every prefix of the ORDER BY key: snvre/aa/ala/stop on the same codons, custom '
                     'records sharing position and id in several files) is run as a subprocess under PYTHONHASHSEED 0,1,2,3+seed and '
                     'in-process in 4-6 other presentations (targeton rows, PAM/custom/background records, manifest, GTF and annotation '
